@@ -72,6 +72,9 @@ Local Open Scope Z_scope.
 Lemma link_dev : dev_num = 1 /\ dev_den = 20.
 Proof. split; reflexivity. Qed.
 
+Lemma link_dev_gen : (C17_Gen.expiryDeviation == dev_num # Z.to_pos dev_den)%Q.
+Proof. reflexivity. Qed.
+
 (* exact arithmetic on the draw: for every base >= 0 and every draw 0 <= d < 2^63 the jittered value lies
    within [95%, 105%] of the base (rounded down) -- the window the statement speaks of *)
 Lemma jit_exact_window base d : 0 <= base -> 0 <= d < two63 ->
